@@ -23,6 +23,9 @@ from .protocol import GeminiServerProtocol
 
 logger = get_logger(__name__)
 
+# Seconds a peer may take to complete the TLS handshake
+HANDSHAKE_TIMEOUT = 30.0
+
 
 class TLSServerProtocol(asyncio.Protocol):
     """Wraps GeminiServerProtocol with manual PyOpenSSL TLS handling.
@@ -71,6 +74,9 @@ class TLSServerProtocol(asyncio.Protocol):
         # Peer address for logging
         self._peer_name: tuple[str, int] | None = None
 
+        # Timer that drops peers which never finish the handshake
+        self._handshake_timer: asyncio.TimerHandle | None = None
+
     def connection_made(self, transport: asyncio.BaseTransport) -> None:
         """Initialize TLS connection when TCP connection is established.
 
@@ -83,6 +89,16 @@ class TLSServerProtocol(asyncio.Protocol):
         # Create PyOpenSSL connection in server mode with memory BIO
         self.tls_conn = SSL.Connection(self.ssl_context, None)
         self.tls_conn.set_accept_state()
+
+        # The inner protocol (and its request timeout) only exists after the
+        # handshake, so the handshake phase needs a timeout of its own
+        try:
+            loop = asyncio.get_running_loop()
+            self._handshake_timer = loop.call_later(
+                HANDSHAKE_TIMEOUT, self._handle_handshake_timeout
+            )
+        except RuntimeError:
+            self._handshake_timer = None
 
         logger.debug(
             "tls_connection_started",
@@ -119,6 +135,7 @@ class TLSServerProtocol(asyncio.Protocol):
         try:
             self.tls_conn.do_handshake()
             self.handshake_complete = True
+            self._cancel_handshake_timer()
 
             logger.debug(
                 "tls_handshake_complete",
@@ -133,6 +150,18 @@ class TLSServerProtocol(asyncio.Protocol):
             self._flush_outgoing()
         except SSL.Error as e:
             self._close_with_error(f"Handshake failed: {e}")
+
+    def _cancel_handshake_timer(self) -> None:
+        """Cancel the handshake timeout if it is still pending."""
+        if self._handshake_timer:
+            self._handshake_timer.cancel()
+            self._handshake_timer = None
+
+    def _handle_handshake_timeout(self) -> None:
+        """Close connections whose TLS handshake did not complete in time."""
+        self._handshake_timer = None
+        if not self.handshake_complete:
+            self._close_with_error("Handshake timeout")
 
     def _process_pending_after_handshake(self) -> None:
         """Process any application data that arrived with the final handshake message.
@@ -248,6 +277,7 @@ class TLSServerProtocol(asyncio.Protocol):
         Args:
             exc: Exception if connection closed due to error, None for clean close.
         """
+        self._cancel_handshake_timer()
         if self.inner_protocol:
             self.inner_protocol.connection_lost(exc)
 
